@@ -13,6 +13,7 @@ import xyzpy.gen.farming as fm
 import xyzpy.manage as mg
 from xyzpy.gen.farming import Harvester, Runner
 
+CONFORMANCE = ("minixr", "fakefs")
 FUNCS = [fm.Harvester, mg.auto_add_extension, mg.save_ds, mg.load_ds, mg.save_merge_ds]
 LABELS = (1, 2, 3)
 POL = (None, True, False)
